@@ -95,9 +95,12 @@ class Value:
         if isinstance(value, Value):
             value.parent = self
 
-        if self.result and isinstance(self._value, list):
+        # a nested Value that has no result yet is held as well: later results join it
+        held = self.result or self._value is not None
+
+        if held and isinstance(self._value, list):
             self._value.append(value)
-        elif self.result:
+        elif held:
             self._value = [self._value]
             self._value.append(value)
         else:
@@ -105,16 +108,17 @@ class Value:
 
         def update(o, v):
             if isinstance(v, Value):
-                o.errors = v.errors
-                o.result = v.result
+                # the flags of a nested Value are added to, never replace, what is known already
+                o.errors = o.errors or v.errors
+                o.result = o.result or v.result
             elif v is not None:
                 o.result = True
 
                 o.inform()
 
             if o.parent is not o:
-                o.parent.errors = o.errors
-                o.parent.result = o.result
+                o.parent.errors = o.parent.errors or o.errors
+                o.parent.result = o.parent.result or o.result
                 update(o.parent, v)
 
         update(self, value)
